@@ -46,7 +46,7 @@ def hx(s):
 
 def seq_grid(build):
     """every request of the finite grid: pid token x timestamp token, plus the malformed shapes"""
-    pids = {"self": ["SELF"], "dead": [hx(str(DEAD_PID))], "zero": [hx("0")], "alpha": [hx("abc")],
+    pids = {"self": ["SELF"], "other": ["OTHER"], "dead": [hx(str(DEAD_PID))], "zero": [hx("0")], "alpha": [hx("abc")],
             "empty": [], "u32overflow": [hx("4294967296")], "plus_self": [hx("+"), "SELF"],
             "self_space": ["SELF", hx(" ")]}
     tss = {"now-10": ["NOW-10"], "now-299": ["NOW-299"], "now-301": ["NOW-301"], "now-100000": ["NOW-100000"],
@@ -76,6 +76,13 @@ def seq_oracle(name, impl):
     model): it either acquires (and its drop removes the file) or reports a live holder; it never crashes and is
     never blocked by a file nobody owns.  Returns a finding slug, 'ok', or 'violation'."""
     outcome = impl.split()[0]
+    if name.startswith("pid=other,") and ("ts=now" in name):
+        # the lock names a LIVE process (an unrelated program): it is never taken over, whatever its age — that a
+        # foreign program's pid blocks is by design (pid reuse trade-off of repo commit 294ac63)
+        live_first = SHAPE.get("live_never_stale")
+        stale = "ts=now-301" in name or "ts=now-100000" in name
+        if outcome == "acquired" and (live_first or not stale) and "ts=now+100" not in name:
+            return "violation"
     if outcome == "panic":
         return "future_ts_panics" if ("ts=now+100" in name or "ts=u64max" in name) else "violation"
     if outcome == "io-error:read-content":
@@ -295,6 +302,70 @@ def scenario_prompt_sigint(ctx):
                 "rc": rc, "lock_gone": lock_text(ws) is None, "touched": before != after}
 
 
+def scenario_other_binary(ctx, mode):
+    """A live holder is never taken over, whichever executable file holder and contender were started from.
+    mode: 'copy-holds' (holder = a copy of the binary elsewhere, contender = the built one), 'copy-contends' (the
+    reverse), 'replaced' (the holder's binary file is replaced on disk while it runs: /proc/<pid>/exe then reads
+    "<path> (deleted)")."""
+    import shutil
+    with common.scratch() as ws, common.scratch(prefix="renamify-verif-bin.") as bindir:
+        make_ws(ws)
+        copy = os.path.join(bindir, "renamify-copy")
+        shutil.copy2(common.CLI_BIN, copy)
+        holder_bin = copy if mode in ("copy-holds", "replaced") else common.CLI_BIN
+        contender_bin = common.CLI_BIN if mode == "copy-holds" else copy
+        err = open(os.path.join(bindir, "holder.err"), "w+b")
+        hp = subprocess.Popen([holder_bin, "test-lock", "--delay", "20000", "--no-auto-init"], cwd=ws, env=cli_env(ws),
+                              stdout=subprocess.DEVNULL, stderr=err, stdin=subprocess.DEVNULL)
+        info = {"scenario": "other_binary", "mode": mode}
+        try:
+            t0 = time.time()
+            while time.time() - t0 < 10 and lock_text(ws) is None and hp.poll() is None:
+                time.sleep(0.01)
+            holder_lock = lock_text(ws)
+            info["holder_acquired"] = holder_lock is not None
+            if mode == "replaced":
+                fresh = copy + ".new"
+                shutil.copy2(common.CLI_BIN, fresh)
+                os.rename(fresh, copy)          # the running holder's file is now unlinked
+                try:
+                    info["holder_exe"] = os.readlink(f"/proc/{hp.pid}/exe")
+                except OSError as ex:
+                    info["holder_exe"] = repr(ex)
+            before = tree_snap(ws)
+            p = subprocess.run([contender_bin, "rename", "foo_bar", "baz_qux", "-y", "--no-auto-init"], cwd=ws, env=cli_env(ws),
+                               stdout=subprocess.PIPE, stderr=subprocess.PIPE, stdin=subprocess.DEVNULL, timeout=60)
+            after = tree_snap(ws)
+            info.update(rc=p.returncode, refused=p.returncode != 0 and b"already running" in p.stderr,
+                        touched=before != after, holder_alive=hp.poll() is None,
+                        holder_lock_intact=lock_text(ws) == holder_lock,
+                        stderr=p.stderr.decode("utf-8", "replace")[-300:])
+        finally:
+            if hp.poll() is None:
+                hp.send_signal(signal.SIGTERM)
+            try:
+                hp.wait(timeout=15)
+            except subprocess.TimeoutExpired:
+                hp.kill()
+                hp.wait()
+            err.close()
+        return info
+
+
+def judge_other_binary(ctx, info):
+    ctx.case(("other_binary", info["mode"]), nontrivial=True)
+    ctx.count(f"other_binary:{info['mode']}:" + ("refused" if info.get("refused") else "entered"))
+    if not info.get("holder_acquired"):
+        ctx.notes.append(f"other_binary {info['mode']}: the holder did not acquire; scenario not evaluated")
+        return
+    if not (info["refused"] and not info["touched"] and info["holder_lock_intact"] and info["holder_alive"]):
+        ctx.violation("argv", info,
+                      expected="a command is refused, and changes nothing, while another renamify process holds the lock — "
+                               "whatever executable file the two were started from",
+                      observed=f"rc={info['rc']} refused={info['refused']} tree changed={info['touched']} "
+                               f"holder's lock intact={info['holder_lock_intact']}")
+
+
 def scenario_release(ctx, how):
     """the lock is gone once the holder has exited: normally, with an error, after SIGINT / SIGTERM"""
     with common.scratch() as ws:
@@ -400,7 +471,7 @@ KIND_OPS = {"exists": ("exists",), "open": ("openr",), "read": ("read",), "unlin
             "flock": ("flock",), "dropflock": ("flock",)}
 # set by run() from the translator: in the guarded shape of lock.rs the directory is created before the flock (the
 # model keeps its no-op `mkdir` step where it was), and the flock on `.renamify` is a scheduling point
-SHAPE = {"guarded": False}
+SHAPE = {"guarded": False, "live_never_stale": False}
 
 INITS = {
     # name -> (model initial-cell, injected file content as a function of name->pid, extra time for newcomers)
@@ -942,6 +1013,9 @@ def table_from_translator(ctx):
                                  "guarded": lock["guarded"], "live_never_stale": lock["live_first"],
                                  "lossy_read": lock["lossy"], "drop_checks": lock["drop_checks"]}
     SHAPE["guarded"] = bool(lock["guarded"])
+    SHAPE["live_never_stale"] = bool(lock["live_first"])
+    ctx.cov["source_variant"]["liveness_is_kill_zero"] = lock["liveness_kill_zero"]
+    ctx.cov["source_variant"]["liveness_calls"] = lock["liveness_calls"]
     return {names.get(r["cmd"], r["cmd"].lower()): r["locks"] for r in rows}
 
 
@@ -969,8 +1043,10 @@ def run(ctx):
 
     # (a) sequential grid -----------------------------------------------------------------------------
     grid = seq_grid(build)
+    grid.append(("stop-helper", "lockother stop"))
     res = common.correspond(ctx, "lockseq: LockFile::acquire on an injected lock file vs Lock.step (one process)",
                             [r for _, r in grid])
+    grid.pop(); res.pop()
     seen_slugs = set()
     seq_violations = 0
     for (name, req), (_, impl, model) in zip(grid, res):
@@ -1019,6 +1095,8 @@ def run(ctx):
     for how in ("normal", "error", "SIGINT", "SIGTERM", "SIGKILL-then-next"):
         judge_release(ctx, scenario_release(ctx, how))
     judge_prompt(ctx, scenario_prompt_sigint(ctx))
+    for mode in ("copy-holds", "copy-contends", "replaced"):
+        judge_other_binary(ctx, scenario_other_binary(ctx, mode))
     for name in DRY_RUNS:
         judge_dry_run(ctx, scenario_dry_run(ctx, name, True))
         judge_dry_run(ctx, scenario_dry_run(ctx, name, False))
@@ -1044,6 +1122,8 @@ def replay(ctx, path):
         ctx.broke("build", "cargo", msg)
         return
     build = common.run_impl(["lockbuild"])[0]
+    if sc != "under_lock":
+        table_from_translator(ctx)      # sets SHAPE from the source
     if sc == "under_lock":
         table = table_from_translator(ctx)
         if table is not None:
@@ -1056,6 +1136,8 @@ def replay(ctx, path):
         judge_dry_run(ctx, scenario_dry_run(ctx, case["name"], bool(case.get("held"))))
     elif sc == "prompt_sigint":
         judge_prompt(ctx, scenario_prompt_sigint(ctx))
+    elif sc == "other_binary":
+        judge_other_binary(ctx, scenario_other_binary(ctx, case["mode"]))
     elif sc == "stale_live":
         judge_stale_live(ctx, scenario_stale_live(ctx, bool(case.get("foreign_drop"))))
     elif sc == "lockseq":
